@@ -49,6 +49,14 @@ var limOps = []limOp{
 	{"format-q", `out := format("%q", s1)`, func(n1, n2 int, k int64) int { return n1 + 2 }, false},
 	{"format-v", `out := format("%v|%v", s1, 12)`, nil, false},
 	{"format-d-pad", `out := format("%08d", 42)`, func(n1, n2 int, k int64) int { return 8 }, false},
+	{"format-left-d", `out := format("%-8d", 1)`, func(n1, n2 int, k int64) int { return 8 }, false},
+	{"format-left-s", `out := format("%-7s", s1)`, nil, false},
+	{"format-left-v", `out := format("%-6v", s2)`, nil, false},
+	{"format-left-star", `out := format("%-*d", k, 7)`, nil, false},
+	{"format-left-last", `out := format("%s%-5d", s1, 3)`, nil, false},
+	{"format-left-x-q", `out := format("%-8x|%-8q", s1, s2)`, nil, false},
+	{"format-float-pad", `out := format("%8.3f|%-9.2e|%+08d|% 6d", 1.5, 2.5, 42, 7)`, nil, false},
+	{"format-bool-char-pad", `out := format("%-6t|%6c|%-5U", true, 65, 66)`, nil, false},
 	{"format-literal", `out := format("abcdefgh")`, func(n1, n2 int, k int64) int { return 8 }, false},
 	{"char-concat", `out := "" + 'x' + s1`, func(n1, n2 int, k int64) int { return n1 + 1 }, false},
 	{"in-loop", `out := ""; for i := 0; i < 4; i++ { out += s1 }`, func(n1, n2 int, k int64) int { return 4 * n1 }, false},
